@@ -287,3 +287,81 @@ func firstOf(xs []string) string {
 	}
 	return xs[0]
 }
+
+// formatArmsSymmetric: on the corpus files of timestamp_format, bytes_encoding and int64_encoding, the set of
+// keys the emitted encoder rewrites equals the set of keys the emitted decoder converts back, per message, and is
+// exactly the set of fields annotated with a non-default constant (whatever way the emitters select the arm:
+// switch, lookup table, helper).
+func formatArmsSymmetric(c *Ctx, rid string) {
+	r := c.R
+	// a key is converted where it is assigned (raw["k"] = … / raw["k"], _ = …), not where it is merely read
+	reKey := regexp.MustCompile(`raw\["([^"]+)"\](?:, _)? =[^=]`)
+	expect := map[string][]string{
+		"_timestamp_format.pb.go": {"Created", "Updated", "Day"},
+		"_bytes_encoding.pb.go":   {"Hex", "Raw", "Url", "Urlraw"},
+		"_encoding.pb.go":         {"Count", "Total", "Ids", "Sizes"},
+	}
+	for _, pkg := range []string{pkgHTTP, pkgClient} {
+		for _, suf := range []string{"_timestamp_format.pb.go", "_bytes_encoding.pb.go", "_encoding.pb.go"} {
+			for _, cf := range corpusFor(suf) {
+				units, pos, prob := c.runUnitConcrete(pkg, suf, cf.File)
+				name := pkgShort(pkg) + " *" + suf
+				if prob != "" || len(units) == 0 {
+					r.Undec(rid, name, pos, "unit does not evaluate on the corpus file: "+prob)
+					continue
+				}
+				enc, dec := map[string]map[string]bool{}, map[string]map[string]bool{}
+				msg, dir := "", ""
+				reRecv := regexp.MustCompile(`^func \(x \*(\w+)\) (MarshalJSON|UnmarshalJSON)\(`)
+				for _, l := range unitLines(units) {
+					if m := reRecv.FindStringSubmatch(l); m != nil {
+						msg, dir = m[1], m[2]
+						if enc[msg] == nil {
+							enc[msg], dec[msg] = map[string]bool{}, map[string]bool{}
+						}
+						continue
+					}
+					if strings.HasPrefix(l, "func ") {
+						dir = ""
+					}
+					for _, m := range reKey.FindAllStringSubmatch(l, -1) {
+						switch dir {
+						case "MarshalJSON":
+							enc[msg][m[1]] = true
+						case "UnmarshalJSON":
+							dec[msg][m[1]] = true
+						}
+					}
+				}
+				var bad []string
+				for _, m := range sortedKeys(enc) {
+					a, b := sortedKeys(enc[m]), sortedKeys(dec[m])
+					if strings.Join(a, ",") != strings.Join(b, ",") {
+						bad = append(bad, fmt.Sprintf("%s: the encoder rewrites %v, the decoder converts back %v", m, a, b))
+					}
+					// exactly the annotated, non-default fields
+					var wantKeys []string
+					for k := range enc[m] {
+						_ = k
+					}
+					n := 0
+					for _, k := range a {
+						for _, e := range expect[suf] {
+							if strings.HasSuffix(k, e) {
+								n++
+							}
+						}
+					}
+					if n != len(expect[suf]) || len(a) != len(expect[suf]) {
+						bad = append(bad, fmt.Sprintf("%s: the encoder rewrites %v; the fields annotated with a non-default constant end in %v", m, a, expect[suf]))
+					}
+					_ = wantKeys
+				}
+				if len(enc) < 4 {
+					bad = append(bad, fmt.Sprintf("only %d of the 4 annotated corpus messages have a codec", len(enc)))
+				}
+				r.Check(len(bad) == 0, rid, name+": encoder and decoder convert the same keys (the fields with a non-default constant)", pos, strings.Join(bad, "; "))
+			}
+		}
+	}
+}
